@@ -96,8 +96,8 @@ def paramIsQ0 (p : Bytes) : Bool :=
        | d :: r => if d = dot then q0End (r.dropWhile (· = 48)) else q0End rest)
   | _ => false
 
-/-- space separated tokens before the first ';' are all listed; the weight belongs to the
-    last one -/
+/-- whitespace (SP / HTAB) separated tokens before the first ';' are all listed; the weight
+    belongs to the last one -/
 def markLast : List Bytes → Bool → List Entry
   | [], _ => []
   | [t], q => [⟨t, q⟩]
@@ -106,7 +106,7 @@ def markLast : List Bytes → Bool → List Entry
 /-- one ','-separated element of the header value -/
 def parseElement (e : Bytes) : List Entry :=
   let head := e.takeWhile (· ≠ semi)
-  let toks := (splitOn sp head).filter (· ≠ [])
+  let toks := (splitOn sp (head.map fun b => if b = ht then sp else b)).filter (· ≠ [])
   let q0 := match e.dropWhile (· ≠ semi) with
     | [] => false
     | _ :: ps => (splitOn semi ps).any paramIsQ0
@@ -255,38 +255,49 @@ def cacheControlOk : Option Bytes → Bool
   | none => true
   | some v => !containsToken v tokPrivate && !containsToken v tokNoStore
 
-def respStart (cfg : Cfg) (rq : Rq) (rs : Rs) : RsOut :=
-  let pass : RsOut := ⟨.pass, rs.status, rs.etag, rs.vary, none, rs.hasCL⟩
-  if !rs.finished || rq.method = .head || rs.hasTE || rs.hasCE then pass
-  else if rs.status < 200 || rs.status = 204 || rs.status = 205 || rs.status = 304 then pass
-  else if cfg.mimetypes.isEmpty then pass
-  else if rs.len ≤ cfg.minSize then pass
-  else if cfg.maxSizeKB ≠ 0 && rs.len > cfg.maxSizeKB * 1024 then pass
+/-- the gates in front of the header adjustments: which coding (if any) this response gets.
+    Does not look at If-None-Match. -/
+def selectCoding (cfg : Cfg) (rq : Rq) (rs : Rs) : Option Coding :=
+  if !rs.finished || rq.method = .head || rs.hasTE || rs.hasCE then none
+  else if rs.status < 200 || rs.status = 204 || rs.status = 205 || rs.status = 304 then none
+  else if cfg.mimetypes.isEmpty then none
+  else if rs.len ≤ cfg.minSize then none
+  else if cfg.maxSizeKB ≠ 0 && rs.len > cfg.maxSizeKB * 1024 then none
   else
   match rq.acceptEncoding with
-  | none => pass
+  | none => none
   | some ae =>
-  match chooseEncoding cfg.allowed ae with
-  | none => pass
+    match chooseEncoding cfg.allowed ae with
+    | none => none
+    | some c => if mimeOk cfg.mimetypes rs.contentType then some c else none
+
+/-- If-None-Match carries the coded entity tag (2xx only) -/
+def inmHit (rq : Rq) (rs : Rs) (c : Coding) : Bool :=
+  let etag := rs.etag.getD []          -- etaglen = 0: header absent (or blank)
+  etag ≠ [] && rs.status < 300 &&
+    (match rq.ifNoneMatch with
+     | some inm => inmMatches etag c.label inm
+     | none => false)
+
+/-- eligible for deflate.cache-dir -/
+def cacheEligible (cfg : Cfg) (rs : Rs) : Bool :=
+  cfg.cacheDir && rs.vary.isNone && decide ((rs.etag.getD []).length > 2) && rs.wholeFile
+    && rs.status ≠ 206 && cacheControlOk rs.cacheControl
+
+def respStart (cfg : Cfg) (rq : Rq) (rs : Rs) : RsOut :=
+  match selectCoding cfg rq rs with
+  | none => ⟨.pass, rs.status, rs.etag, rs.vary, none, rs.hasCL⟩
   | some c =>
-  if !mimeOk cfg.mimetypes rs.contentType then pass
-  else
     let vary' := varyAdjust rs.vary
-    let etag := rs.etag.getD []          -- etaglen = 0: header absent (or blank)
-    let inmHit := etag ≠ [] && rs.status < 300 &&
-      (match rq.ifNoneMatch with
-       | some inm => inmMatches etag c.label inm
-       | none => false)
-    if inmHit then
+    let etag := rs.etag.getD []
+    if inmHit rq rs c then
       if rq.method = .other then
         ⟨.precondFailed, 412, rs.etag, some vary', none, false⟩
       else
         ⟨.notModified, 304, some (suffixEtag etag c.label), some vary', none, false⟩
     else
       let etag' := if etag ≠ [] then some (suffixEtag etag c.label) else rs.etag
-      let cache := cfg.cacheDir && rs.vary.isNone && decide (etag.length > 2) && rs.wholeFile
-        && rs.status ≠ 206 && cacheControlOk rs.cacheControl
-      ⟨.encode c cache, rs.status, etag', some vary', some c.label, false⟩
+      ⟨.encode c (cacheEligible cfg rs), rs.status, etag', some vary', some c.label, false⟩
 
 /-! ## cache file names (byte level) -/
 
@@ -302,8 +313,16 @@ def pathJoin (a b : Bytes) : Bytes :=
 def cacheFileName (dir path etag : Bytes) : Bytes :=
   pathJoin dir path ++ dash :: (etag.drop 1).dropLast
 
+/-- li_itostrn(): decimal digits -/
+def decDigitsAux : Nat → Nat → Bytes
+  | 0, n => [UInt8.ofNat (48 + n % 10)]
+  | fuel + 1, n =>
+    if n < 10 then [UInt8.ofNat (48 + n)] else decDigitsAux fuel (n / 10) ++ [UInt8.ofNat (48 + n % 10)]
+
+def decDigits (n : Nat) : Bytes := decDigitsAux n n
+
 /-- mod_deflate_cache_file_open(): final name "." decimal pid -/
-def tmpFileName (fn : Bytes) (pid : Nat) : Bytes := fn ++ dot :: natToDec pid
+def tmpFileName (fn : Bytes) (pid : Nat) : Bytes := fn ++ dot :: decDigits pid
 
 /-! ## cache protocol over a model of the cache directory -/
 
